@@ -345,9 +345,11 @@ class TlsPair:
                                     components=comps, role_provider_components=EXAMPLE_ROLE_PROVIDER_COMPONENTS,
                                     alternative_hostname=self.alt)
         self.net.creating = 'provider'
-        if cfg['psrv'] == 'shared':
-            # the application supplies a server that matches the provider's TLS configuration
-            self.pserver = FakeHttpServer(self.net, IP, P_SHARED_PORT, 'https' if self.p_ssl else 'http')
+        if cfg['psrv'] in ('shared', 'mismatch'):
+            # the application supplies a server: one that matches the provider's TLS configuration, or ('mismatch') a
+            # plaintext server for a TLS provider
+            scheme = 'https' if self.p_ssl and cfg['psrv'] == 'shared' else 'http'
+            self.pserver = FakeHttpServer(self.net, IP, P_SHARED_PORT, scheme)
             self.net.owner[P_SHARED_PORT] = 'provider'
         self.provider.start_all(start_rtsample_loop=False, shared_http_server=self.pserver)
         self.net.creating = None
